@@ -241,11 +241,11 @@ func gobDirect(c *Ctx) {
 	for _, w := range []struct{ fn, call string }{{"NewEncoder", "(*encoding/gob.Encoder).Encode"}, {"NewDecoder", "(*encoding/gob.Decoder).Decode"}} {
 		f := c.P.Func("lib", w.fn)
 		key := "gob-direct:lib." + w.fn
-		if f == nil || len(f.AnonFuncs) != 1 {
+		if returnedClosure(f) == nil {
 			c.Undecided(key, rGob, "closure not found")
 			continue
 		}
-		cl := f.AnonFuncs[0]
+		cl := returnedClosure(f)
 		c.Saw("function " + shortFn(cl))
 		calls := callsNamed(cl, w.call)
 		ok := len(calls) == 1
@@ -745,11 +745,11 @@ func c09CSVEncoder(c *Ctx) {
 	const rule = "the CSV encoder writes one record per call and flushes it before returning success: every nil-returning path passes csv.Writer.Write once, then Flush, and returns the writer's Error()"
 	outer := c.P.Func("lib", "NewCSVEncoder")
 	key := "one-record-per-call:lib.NewCSVEncoder"
-	if outer == nil || len(outer.AnonFuncs) != 1 {
+	if returnedClosure(outer) == nil {
 		c.Undecided(key, rule, "closure not found")
 		return
 	}
-	fn := outer.AnonFuncs[0]
+	fn := returnedClosure(outer)
 	c.Saw("function " + shortFn(fn))
 	ws := callsNamed(fn, "(*encoding/csv.Writer).Write")
 	fl := callsNamed(fn, "(*encoding/csv.Writer).Flush")
@@ -789,11 +789,11 @@ func c09JSONEncoder(c *Ctx) {
 	const rule = "the JSON encoder emits one complete line per call in a single write: the record and its '\\n' are appended to the in-memory jwriter, then exactly one DumpTo writes them; on a marshal error nothing is dumped and the sticky error is left in place (fail-stop)"
 	outer := c.P.Func("lib", "NewJSONEncoder")
 	key := "one-record-per-call:lib.NewJSONEncoder"
-	if outer == nil || len(outer.AnonFuncs) != 1 {
+	if returnedClosure(outer) == nil {
 		c.Undecided(key, rule, "closure not found")
 		return
 	}
-	fn := outer.AnonFuncs[0]
+	fn := returnedClosure(outer)
 	c.Saw("function " + shortFn(fn))
 	dumps := callsNamed(fn, "(*github.com/mailru/easyjson/jwriter.Writer).DumpTo")
 	marsh := callsNamed(fn, "(lib.jsonResult).MarshalEasyJSON", "(*lib.jsonResult).MarshalEasyJSON")
@@ -863,11 +863,11 @@ func c09JSONDecoder(c *Ctx) {
 	const rule = "the JSON decoder unmarshals only a complete line: the bytes come from a copying newline-terminated read (ReadBytes/ReadString('\\n'), not ReadSlice/ReadLine whose result aliases the reader's buffer) and unmarshalling happens only on that read's err == nil edge"
 	outer := c.P.Func("lib", "NewJSONDecoder")
 	key := "complete-lines:lib.NewJSONDecoder"
-	if outer == nil || len(outer.AnonFuncs) != 1 {
+	if returnedClosure(outer) == nil {
 		c.Undecided(key, rule, "closure not found")
 		return
 	}
-	fn := outer.AnonFuncs[0]
+	fn := returnedClosure(outer)
 	c.Saw("function " + shortFn(fn))
 	um := callsNamed(fn, "(*lib.jsonResult).UnmarshalEasyJSON")
 	if len(um) != 1 {
@@ -949,11 +949,11 @@ func c13RoundRobin(c *Ctx) {
 	const rule = "the round-robin decoder makes len(dec) attempts per call, each at index seq % len(dec) with seq incremented exactly once per attempt, returns nil at the first successful Decode (no further Decode into the same Result), returns the last error only after the loop, and never modifies the decoder slice; with one decoder it returns that decoder"
 	outer := c.P.Func("lib", "NewRoundRobinDecoder")
 	key := "round-robin:lib.NewRoundRobinDecoder"
-	if outer == nil || len(outer.AnonFuncs) != 1 {
+	if returnedClosure(outer) == nil {
 		c.Undecided(key, rule, "closure not found")
 		return
 	}
-	fn := outer.AnonFuncs[0]
+	fn := returnedClosure(outer)
 	c.Saw("function " + shortFn(fn))
 	decs := callsNamed(fn, "(lib.Decoder).Decode")
 	if len(decs) != 1 {
